@@ -56,7 +56,7 @@ def teardown (f : Faults) (ini : List Ev) : List Ev := (ini.flatMap (teardownOf 
 
 /-- the last exception raised along a log (`e0` if none) -/
 def lastRaised (f : Faults) (evs : List Ev) (e0 : Option Tag) : Option Tag :=
-  evs.foldl (fun acc e => match faultTag f e with | some t => some t | none => acc) e0
+  evs.foldl (fun acc e => (faultTag f e).or acc) e0
 
 def isRaise : Ev → Bool
   | .raise _ => true
